@@ -450,3 +450,62 @@ def run_raw_packet(run, P):
                               'the persisted request starts hdr_size bytes in front of the token but its length is %s, which does not add that header size to used_size: the '
                               'stored packet is cut short at the end and cannot be parsed (or loses payload) after a restart' % short(expr)[:50], [])
     run.require(n >= (2 if run.cfg == 'base' else 0) or run.fixture_mode, 'R-PERSIST(raw packet): fewer than 2 places that build a raw packet for persistence found')
+
+
+def run_load_order(run, P, creator='coap_add_resource_lkd', finder='coap_get_resource_from_uri_path_lkd'):
+    """R-PERSIST (load order): at start-up what is restored per resource (saved Observe counters, observations) is matched to resources by
+    path; a record whose resource does not exist is skipped.  So in every function that calls both kinds of loaders -- 'makers', whose
+    call closure creates resources (reaches coap_add_resource_lkd through the unknown-resource handler's PUT or directly), and 'users', whose
+    closure only looks resources up -- no maker call is reachable in the control-flow graph from a user call: the dynamically created
+    resources are there before anything is restored onto them.  Loading the counters first silently drops the counters of all dynamic
+    resources (and the file is rewritten without them): the first Observe value after the restart starts again from the initial value,
+    below what the client saw before the crash."""
+    from core.prog import succs
+    run.rule('R-PERSIST')
+    cg = P.callgraph()
+
+    def closure(fn):
+        return P.reachable_from([fn])
+    loaders = {}
+    for f in P.lib_funcs():
+        if not f['name'].endswith('_load_disk'):
+            continue
+        cl = closure(f['name'])
+        # a loader that hands saved requests to the application's handler can create resources (dynamic resources are created by the PUT handler)
+        makes = creator in cl or any(True for b, ev in P.events(f) for x in walk(ev['e']) if isinstance(x, dict) and x.get('k') == 'call' and not x.get('fn') and 'handler' in short(x))
+        uses = finder in cl
+        if makes or uses:
+            loaders[f['name']] = 'maker' if makes else 'user'
+    run.require(('maker' in loaders.values() and 'user' in loaders.values()) or run.fixture_mode or run.cfg != 'base',
+                'R-PERSIST(load order): no loader that creates resources and no loader that looks them up found (%s)' % loaders)
+    n = 0
+    for f in sorted(P.lib_funcs(), key=lambda f: f['name']):
+        sites = []
+        for b in f['blocks']:
+            for i, ev in enumerate(b['elems']):
+                t = ev['e']
+                if t.get('k') == 'call' and ev.get('top', True) and t.get('fn') in loaders:
+                    sites.append((b['id'], i, t['fn'], ev['loc']))
+        kinds = set(loaders[s[2]] for s in sites)
+        if kinds != {'maker', 'user'}:
+            continue
+        B = f['B']
+        for ub, ui, ufn, uloc in [s for s in sites if loaders[s[2]] == 'user']:
+            reach = set()
+            work = list(succs(B[ub]))
+            while work:
+                x = work.pop()
+                if x in reach:
+                    continue
+                reach.add(x)
+                work.extend(succs(B[x]))
+            for mb, mi, mfn, mloc in [s for s in sites if loaders[s[2]] == 'maker']:
+                n += 1
+                bad = mb in reach or (mb == ub and mi > ui)
+                run.instance('R-PERSIST', '%s: %s() (creates resources) is not reachable after %s() (looks them up)' % (f['name'], mfn, ufn))
+                run.oblige('R-PERSIST', not bad, '%s:%s-before-%s' % (f['name'], mfn, ufn))
+                if bad:
+                    run.violation('R-PERSIST', f['name'], uloc, 'restored-before-resources-exist:%s' % ufn,
+                                  '%s() restores per-resource state by path and skips records whose resource does not exist, but %s(), which creates the dynamic resources, '
+                                  'runs after it (%s): everything saved for a dynamic resource is dropped at start-up' % (ufn, mfn, mloc.rsplit('/', 1)[-1]), [])
+    run.require(n >= 1 or run.fixture_mode or run.cfg != 'base', 'R-PERSIST(load order): no function that calls both kinds of loaders found (expected coap_persist_startup_lkd)')
